@@ -2218,3 +2218,73 @@ def inline_new_properties(trees: Dict[str, ast.Module]) -> None:
                         return n
                 T().visit(fn)
         ast.fix_missing_locations(t)
+
+
+def record_unpack(trees: Dict[str, ast.Module]) -> None:
+    """a, b, c = x   where x is known (by an enclosing isinstance test) to be an instance of a NamedTuple class of the package with exactly that
+    many fields: a = x.<field1>; b = x.<field2>; ..  (unpacking a record reads its fields in order)."""
+    records: Dict[str, List[str]] = {}
+    for t in trees.values():
+        for cd in [n for n in ast.walk(t) if isinstance(n, ast.ClassDef)]:
+            if any((isinstance(b, ast.Name) and b.id == "NamedTuple") or (isinstance(b, ast.Attribute) and b.attr == "NamedTuple") for b in cd.bases):
+                fields = [st.target.id for st in cd.body if isinstance(st, ast.AnnAssign) and isinstance(st.target, ast.Name)]
+                if fields:
+                    records[cd.name] = fields
+
+    def type_fact(test: ast.expr) -> Tuple[Optional[Tuple[str, str]], Optional[Tuple[str, str]]]:
+        """(fact when true, fact when false): (name, class)"""
+        neg = False
+        while isinstance(test, ast.UnaryOp) and isinstance(test.op, ast.Not):
+            test = test.operand
+            neg = not neg
+        if isinstance(test, ast.Call) and isinstance(test.func, ast.Name) and test.func.id == "isinstance" and len(test.args) == 2 and isinstance(test.args[0], ast.Name) \
+                and isinstance(test.args[1], ast.Name) and test.args[1].id in records:
+            f = (test.args[0].id, test.args[1].id)
+            return (None, f) if neg else (f, None)
+        return (None, None)
+
+    def walk(stmts: List[ast.stmt], known: Dict[str, str]) -> None:
+        i = 0
+        while i < len(stmts):
+            st = stmts[i]
+            if isinstance(st, ast.If):
+                t_, f_ = type_fact(st.test)
+                kb = dict(known)
+                ko = dict(known)
+                if t_:
+                    kb[t_[0]] = t_[1]
+                if f_:
+                    ko[f_[0]] = f_[1]
+                walk(st.body, kb)
+                walk(st.orelse, ko)
+            elif isinstance(st, (ast.For, ast.While, ast.With, ast.Try)):
+                for fld in ("body", "orelse", "finalbody"):
+                    sub = getattr(st, fld, None)
+                    if isinstance(sub, list) and sub and isinstance(sub[0], ast.stmt):
+                        k2 = dict(known)
+                        if isinstance(st, ast.For):
+                            for n in ast.walk(st.target):
+                                if isinstance(n, ast.Name):
+                                    k2.pop(n.id, None)
+                        walk(sub, k2)
+            elif isinstance(st, ast.Assign) and len(st.targets) == 1:
+                tg = st.targets[0]
+                if isinstance(tg, (ast.Tuple, ast.List)) and isinstance(st.value, ast.Name) and st.value.id in known and all(isinstance(x, ast.Name) for x in tg.elts) \
+                        and len(tg.elts) == len(records[known[st.value.id]]) and not any(x.id == st.value.id for x in tg.elts):
+                    new = [ast.copy_location(ast.Assign(targets=[ast.Name(id=x.id, ctx=ast.Store())], value=ast.Attribute(value=ast.Name(id=st.value.id, ctx=ast.Load()), attr=fld_, ctx=ast.Load())), st)
+                           for x, fld_ in zip(tg.elts, records[known[st.value.id]])]
+                    for y in new:
+                        ast.fix_missing_locations(y)
+                    stmts[i:i + 1] = new
+                    i += len(new)
+                    continue
+                for n in ast.walk(tg):
+                    if isinstance(n, ast.Name):
+                        known.pop(n.id, None)
+            i += 1
+
+    for m, t in trees.items():
+        if ".tests" in m or m.endswith("tests"):
+            continue
+        for fn in [n for n in ast.walk(t) if isinstance(n, (ast.FunctionDef, ast.AsyncFunctionDef))]:
+            walk(fn.body, {})
